@@ -7,40 +7,13 @@ import (
 	"time"
 )
 
-func mkMsg(mid, subject, body string) *Message {
-	m := &Message{Header: make(Header)}
-	m.Header.Set(HEADER_MID, mid)
-	m.Header.Set(HEADER_DATE, "2016/01/01 00:00")
-	m.Header.Set(HEADER_TYPE, "Private")
-	m.Header.Set(HEADER_FROM, "N0CALL")
-	m.Header.Set(HEADER_TO, "N1CALL")
-	m.Header.Set(HEADER_SUBJECT, subject)
-	m.Header.Set(HEADER_MBO, "N0CALL")
-	m.body = []byte(body)
-	m.Header.Set(HEADER_BODY, refItoa(len(body)))
-	return m
-}
-
-var c01MIDs = [...]string{"AAAAAAAAAAA1", "BBBBBBBBBBB2", "CCCCCCCCCCC3", "DDDDDDDDDDD4", "EEEEEEEEEEE5", "FFFFFFFFFFF6"}
-
-func c01Msgs(n int) []*Message {
-	var out []*Message
-	for i := 0; i < n; i++ {
-		body := "body " + c01MIDs[i] + "\r\n"
-		for j := 0; j < i; j++ {
-			body += "more text to make sizes differ\r\n"
-		}
-		out = append(out, mkMsg(c01MIDs[i], "subj"+refItoa(i), body))
-	}
-	return out
-}
-
 // C01 K4 / C02 K1 (no fault): sender bookkeeping against a scripted peer.
-//   n outbound messages, the peer answers each with a symbolic policy
-//   (+, -, =), then starts its turn with a symbolic byte.
+//
+//	n outbound messages, the peer answers each with a symbolic policy
+//	(+, -, =), then starts its turn with a symbolic byte.
 func H_c01_sender() {
 	N := symParam("N", 2)
-	n := symInt(1, N)
+	n := symInt(symParam("NMIN", 1), N)
 	msgs := c01Msgs(n)
 	h := &recHandler{failAt: -1, out: msgs}
 	nb := n
@@ -48,8 +21,14 @@ func H_c01_sender() {
 		nb = 5
 	}
 	ans := make([]byte, nb)
-	for i := range ans {
-		ans[i] = [...]byte{'+', '-', '='}[symInt(0, 2)]
+	if symParam("PATTERNS", 0) == 1 {
+		// four answer patterns instead of all 3^nb combinations
+		pat := [...]string{"+++++", "-----", "=====", "+-=+-"}[symInt(0, 3)]
+		copy(ans, pat)
+	} else {
+		for i := range ans {
+			ans[i] = [...]byte{'+', '-', '='}[symInt(0, 2)]
+		}
 	}
 	next := symByte()
 	var in []byte
@@ -99,6 +78,12 @@ func H_c01_sender() {
 		} else {
 			symAssert(count(s.trafficStats.Sent, mid) == 0, "stats-do-not-list-untransferred")
 		}
+	}
+	// messages that did not fit into this block of five stay pending: nothing is reported for them
+	for i := nb; i < n; i++ {
+		mid := props[i].mid
+		symAssert(count(h.sent, mid) == 0 && count(h.rejected, mid) == 0 && count(h.deferred, mid) == 0, "messages-beyond-the-block-of-five-stay-pending")
+		symAssert(count(s.trafficStats.Sent, mid) == 0, "stats-do-not-list-untransferred")
 	}
 	if confirmed {
 		symAssert(err == nil, "confirmed-turn-returns-nil")
@@ -190,11 +175,11 @@ func H_c01_receiver() {
 // ---------- two-party run over an in-memory duplex pipe ----------
 
 type pipeEnd struct {
-	rx       chan []byte
-	tx       chan []byte
-	left     []byte
-	closed   bool
-	seg      int
+	rx     chan []byte
+	tx     chan []byte
+	left   []byte
+	closed bool
+	seg    int
 }
 
 func newPipe(seg int) (*pipeEnd, *pipeEnd) {
@@ -254,13 +239,21 @@ type exchangeResult struct {
 func H_c01_two_party() {
 	NA := symParam("NA", 2)
 	NB := symParam("NB", 1)
-	na := symInt(0, NA)
+	na := symInt(symParam("NAMIN", 0), NA)
 	nb := symInt(0, NB)
 	all := c01Msgs(na + nb)
 	aMsgs, bMsgs := all[:na], all[na:]
 	polOf := make(map[string]ProposalAnswer)
-	for _, m := range all {
-		polOf[m.MID()] = [...]ProposalAnswer{Accept, Reject, Defer}[symInt(0, 2)]
+	if symParam("POLICY", 0) == 1 {
+		// four policy patterns instead of every combination
+		pat := symInt(0, 3)
+		for i, m := range all {
+			polOf[m.MID()] = [...][3]ProposalAnswer{{Accept, Accept, Accept}, {Reject, Reject, Reject}, {Defer, Defer, Defer}, {Accept, Reject, Defer}}[pat][i%3]
+		}
+	} else {
+		for _, m := range all {
+			polOf[m.MID()] = [...]ProposalAnswer{Accept, Reject, Defer}[symInt(0, 2)]
+		}
 	}
 	ha := &recHandler{failAt: -1, out: aMsgs}
 	hb := &recHandler{failAt: -1, out: bMsgs}
